@@ -61,8 +61,15 @@ def q_elements(chk, mod):
               '; shape: incident beam along its own dim': lambda n: ('pulse',) if n == 'b1' else ('pixel',),
               '; shape: scalar scattered beam, incident 1-d': lambda n: ('pulse',) if n == 'b1' else (),
               '; shape: wavelength along its own dim': lambda n: ('wavelength',) if n == 'lam' else ('pixel',)}
-    for wdt, (stag, pol) in [(F64, x) for x in shapes.items()] + [(F32, ('', None))]:
+    for wdt, (stag, pol) in [(F64, x) for x in shapes.items()] + [(F32, ('', None)), (F64, ('; beams dimensionless (not of unit length)', None)),
+                                                                  (F64, ('; incident beam dimensionless, scattered beam a length', None))]:
         u1, u2 = symbolic_unit('k_b1', NAMED['m']), symbolic_unit('k_b2', NAMED['m'])
+        # Q "does not depend on the lengths of the beams": whatever they are measured in -- also plain numbers (positions divided by a
+        # reference length, direction cosines that are not normalised)
+        if 'beams dimensionless' in stag:
+            u1 = u2 = NAMED['dimensionless']
+        elif 'incident beam dimensionless' in stag:
+            u1 = NAMED['dimensionless']
 
         def mk():
             with kit.dims_policy(pol):
@@ -250,6 +257,10 @@ def _numeric_failures(n, seed, limit=3):
         qv = tof.Q_vec_from_Q_elements(**q)
         want = 2 * np.pi / lam * (b1 / np.linalg.norm(b1) - b2 / np.linalg.norm(b2))
         e1 = np.linalg.norm(qv.value - want) / max(np.linalg.norm(want), 1e-300)
+        # the same beams as plain numbers (no unit): the same Q
+        qd = tof.Q_vec_from_Q_elements(**tof.Q_elements_from_wavelength(wavelength=sc.scalar(lam, unit='angstrom'), incident_beam=sc.vector(b1),
+                                                                        scattered_beam=sc.vector(b2 if i % 2 else b2 * 3.5)))
+        e1 = max(e1, np.linalg.norm(qd.value - want) / max(np.linalg.norm(want), 1e-300))
         # "its norm equals the scalar Q for the same beams": the scalar Q of the package (from the wavelength and the scattering
         # angle of the same beams), for wavelengths stored as double, single or integer
         from vf.realrun import real_module as _rm
